@@ -8,7 +8,8 @@
    the route is registered under the upper-cased request method; best_route = r fits and is
    preferred (C05 pref: literal before parameter at the first difference) to every other fitting
    route of that method. *)
-From V Require Import Bytes DencoSpec DencoTrie DencoSpecProofs PathCleanLib PathUnescapeLib PathCleanProofs SpecRouter SpecRouterSpec SpecRouterProofs.
+From V Require Import Bytes DencoSpec DencoTrie DencoSpecProofs PathCleanLib PathUnescapeLib PathCleanProofs SpecRouter SpecRouterSpec SpecRouterProofs
+  SpecRouterSegs SpecRouterSegProofs SpecRouterSegDispatch SpecRouterSelfReg SpecRouterSimpleRoutes.
 
 (* the handler that runs is the one of the preferred fitting route under the upper-cased method, and
    it receives the placeholder names paired with the percent-decoded texts; and conversely *)
@@ -148,3 +149,129 @@ Theorem C01_example_in_domain :
   serve example_base example_routes [71;69;84] [47;122;122] = R404.
 Proof. exact example_plain. Qed.
 Print Assumptions C01_example_in_domain.
+
+(* ---------- the same clauses in the segment vocabulary of the property ----------
+   (Model/SpecRouterSegs.v, Proofs/SpecRouterSegProofs.v, Proofs/SpecRouterSegDispatch.v, by the C05 builder.)
+   A simple template is a list ts of segments (literal or whole-segment placeholder) with simple_ok ts;
+   render ts is its text, tshape ts its shape, render_path segs the request path with those segments. *)
+
+(* pathConverter and the denco tokeniser on a simple template give exactly its shape and names *)
+Theorem C01_template_key_shape : forall ts, simple_ok ts = true ->
+  key_shape (convert_template (render ts)) = (tshape ts, tpl_names ts).
+Proof. exact key_shape_render. Qed.
+Print Assumptions C01_template_key_shape.
+
+(* matching the shape on the path text is instantiating the template by the path segments *)
+Theorem C01_shape_match_is_segment_match : forall ts segs, simple_ok ts = true -> forallb plain_seg segs = true ->
+  smatch (tshape ts) (render_path segs) = seg_match ts segs.
+Proof. exact smatch_render. Qed.
+Print Assumptions C01_shape_match_is_segment_match.
+
+(* the preference of C05 between two instantiated simple templates is literal-before-placeholder at
+   the first differing segment *)
+Theorem C01_pref_is_segment_pref : forall ts1 ts2 segs, simple_ok ts1 = true -> simple_ok ts2 = true ->
+  seg_match ts1 segs <> None -> seg_match ts2 segs <> None ->
+  (pref (tshape ts1) (tshape ts2) <-> seg_pref_b ts1 ts2 = true).
+Proof. exact pref_render. Qed.
+Print Assumptions C01_pref_is_segment_pref.
+
+(* a rooted normal path is the rendering of its plain segments *)
+Theorem C01_rooted_normal_is_rendering : forall p, rooted_normal p = true ->
+  exists segs, p = render_path segs /\ forallb plain_seg segs = true.
+Proof. exact rooted_normal_render. Qed.
+Print Assumptions C01_rooted_normal_is_rendering.
+
+(* hence the path hypotheses of the two theorems below hold for every rooted request path *)
+Theorem C01_rooted_request_has_segments : forall r,
+  exists segs, clean (SL :: r) = render_path segs /\ forallb plain_seg segs = true.
+Proof. intro r. exact (rooted_normal_render _ (clean_rooted_normal r)). Qed.
+Print Assumptions C01_rooted_request_has_segments.
+
+(* C01_dispatch_exact in segment vocabulary *)
+Theorem C01_dispatch_segments : forall base routes ts_of, simple_view base routes ts_of ->
+  forall m p segs h ps, plain_routes base routes = true ->
+  clean p = render_path segs -> forallb plain_seg segs = true ->
+  (serve base routes m p = Run h ps <->
+   exists r vs, best_seg_route routes ts_of m segs r vs /\ r_id r = h /\
+                ps = combine (tpl_names (ts_of r)) (map unescape_or_raw vs)).
+Proof. exact dispatch_segments. Qed.
+Print Assumptions C01_dispatch_segments.
+
+(* C01_405_allow_exact in segment vocabulary *)
+Theorem C01_405_allow_segments : forall base routes ts_of, simple_view base routes ts_of ->
+  forall m p segs, plain_routes base routes = true ->
+  clean p = render_path segs -> forallb plain_seg segs = true ->
+  (forall r, In r routes -> under m r -> seg_match (ts_of r) segs = None) ->
+  exists A, NoDup A /\
+    (forall k, In k A <-> exists r, In r routes /\ upper (r_method r) = k /\ seg_match (ts_of r) segs <> None) /\
+    serve base routes m p = match A with [] => R404 | _ => R405 A end.
+Proof. exact allow_segments. Qed.
+Print Assumptions C01_405_allow_segments.
+
+(* non-vacuity of simple_view on the example route set *)
+Theorem C01_example_simple_view :
+  simple_view example_base example_routes example_ts_of /\
+  clean [47;97;112;105;47;47;97;47;46;47;37;50;70;37;50;53] = render_path [[97;112;105]; [97]; [37;50;70;37;50;53]] /\
+  forallb plain_seg [[97;112;105]; [97]; [37;50;70;37;50;53]] = true /\
+  seg_match (example_ts_of (mkRoute [103;101;116] [47;97;47;123;105;100;125] 0)) [[97;112;105]; [97]; [37;50;70;37;50;53]]
+    = Some [[37;50;70;37;50;53]].
+Proof. exact example_simple_view. Qed.
+Print Assumptions C01_example_simple_view.
+
+(* ---------- syntactic hypotheses only ---------- *)
+(* simple_routes: every template under the base path is the rendering of simple segments, placeholder
+   names distinct inside a template, the templates of one method have pairwise distinct shapes, and
+   AddRoute finds for every operation the handler registered for that operation. These conditions
+   imply the hypothesis plain_routes of the theorems above. *)
+Theorem C01_simple_routes_plain : forall base routes ts_of, simple_routes base routes ts_of ->
+  plain_routes base routes = true.
+Proof. exact simple_routes_plain. Qed.
+Print Assumptions C01_simple_routes_plain.
+
+(* the dispatch clause in the vocabulary of the property, under the syntactic conditions: the handler
+   that runs is the one of the route of the upper-cased method whose template is instantiated by the
+   segments of the cleaned path and preferred (literal segment before placeholder at the first
+   difference) to every other instantiated template of that method; it receives the placeholder names
+   paired with the percent-decoded segment texts; and conversely *)
+Theorem C01_dispatch_simple : forall base routes ts_of, simple_routes base routes ts_of ->
+  forall m p segs h ps, clean p = render_path segs -> forallb plain_seg segs = true ->
+  (serve base routes m p = Run h ps <->
+   exists r vs, best_seg_route routes ts_of m segs r vs /\ r_id r = h /\
+                ps = combine (tpl_names (ts_of r)) (map unescape_or_raw vs)).
+Proof. exact dispatch_simple. Qed.
+Print Assumptions C01_dispatch_simple.
+
+Theorem C01_405_allow_simple : forall base routes ts_of, simple_routes base routes ts_of ->
+  forall m p segs, clean p = render_path segs -> forallb plain_seg segs = true ->
+  (forall r, In r routes -> under m r -> seg_match (ts_of r) segs = None) ->
+  exists A, NoDup A /\
+    (forall k, In k A <-> exists r, In r routes /\ upper (r_method r) = k /\ seg_match (ts_of r) segs <> None) /\
+    serve base routes m p = match A with [] => R404 | _ => R405 A end.
+Proof. exact allow_simple. Qed.
+Print Assumptions C01_405_allow_simple.
+
+Theorem C01_example_simple_routes : simple_routes example_base example_routes example_ts_of.
+Proof. exact example_simple_routes. Qed.
+Print Assumptions C01_example_simple_routes.
+
+(* AddRoute recovers the template from the joined path: for an empty or rooted base path and a
+   template in rooted normal form, TrimPrefix of the cleaned base path (the root template repaired as
+   in the fix of F-C01-4) gives back the template *)
+Theorem C01_template_recovered : forall base tsegs, base = [] \/ (exists b, base = SL :: b) ->
+  forallb plain_seg tsegs = true ->
+  template_of base (path_join base (rooted_of tsegs)) = rooted_of tsegs.
+Proof. exact template_recovered. Qed.
+Print Assumptions C01_template_recovered.
+
+(* purely syntactic conditions on the API description (syntactic_routes: base path empty or rooted,
+   templates rooted normal paths, no two operations with the same method and template, every template
+   under the base path the rendering of simple segments with distinct names, pairwise distinct shapes per
+   method) imply simple_routes, hence C01_dispatch_simple and C01_405_allow_simple *)
+Theorem C01_syntactic_routes_simple : forall base routes ts_of,
+  syntactic_routes base routes ts_of -> simple_routes base routes ts_of.
+Proof. exact syntactic_routes_simple. Qed.
+Print Assumptions C01_syntactic_routes_simple.
+
+Theorem C01_example_syntactic_routes : syntactic_routes example_base example_routes example_ts_of.
+Proof. exact example_syntactic_routes. Qed.
+Print Assumptions C01_example_syntactic_routes.
